@@ -2,6 +2,7 @@
 with the model), the rule that makes a case non-trivial, assumptions (DESIGN §2.2, §6)."""
 
 ENGINES = {
+    "codec": {"shards_thorough": 14},
     "conc": {"shards_thorough": 14},
     "concx": {"shards_thorough": 14},
     "seqr": {"shards_thorough": 14},
@@ -144,5 +145,26 @@ PROPS = {
         "nontrivial": r"uuid\.fetch_add[^ ]*uuid\.fetch_add",
         "rule": "E-conc: a level pre-loaded with 1-4 Standard/PostOnly/Iceberg/Reserve orders, 2-4 real threads each issuing 1-3 add/match/cancel/quantity-amend/read/next operations, run under a deterministic scheduler that admits one shared-memory operation (atomic, map or queue op) at a time following a random schedule (single steps or bursts); 150 programs x 12 schedules (thorough: 3000 x 40 per shard); the logged event trace, every return value and the aggregates read by the controller after every step are compared with the Lean small-step model run under the same schedule; every id-generator step must be exactly one fetch_add(1) on the counter, and the values handed out across all threads judged by C14.ok to be pairwise distinct and to form the range starting at the counter's previous value; transaction ids are mapped back to counters through v5(namespace, k) computed independently by the harness (reproducibility)",
         "assumptions": ["as C03; Uuid::new_v5 (SHA-1) injective on distinct counter strings"],
+    },
+    "C16": {
+        "engines": ["codec"],
+        "footprint": {"txt": "*", "parsed": "*"},
+        "nontrivial": r"^parsed ok ",
+        "rule": "E-codec valid stream: for each of the 13 text codec types (order, update, id, side, tif, peg, transaction, transaction list, "
+                "match result, statistics, snapshot summary, queue, level) 300 (thorough 3000 per shard) type-directed values with boundary "
+                "numbers (0, 1, 2^53+1, u64::MAX, i64::MIN/MAX, GTD at the limits, absent replenish amount, nil/max/random UUID and ULID, "
+                "empty and multi-element lists); the printed text compared byte for byte with the model's, the parse of that text compared with "
+                "the model's parse and judged equal to the value (C16); non-trivial = a parse that succeeded; distinct = distinct value text",
+        "assumptions": ["listings (queue, level) are compared as sets ordered by (timestamp, id); generated queues/levels use distinct timestamps"],
+    },
+    "C18": {
+        "engines": ["codec"],
+        "footprint": {"parsed": "*"},
+        "nontrivial": r"^parsed err ",
+        "rule": "E-codec malformed stream: 1500 (thorough 20000 per shard) strings per type obtained from a valid encoding by character-level "
+                "deletion, insertion, substitution (structural characters, digits, letters, multi-byte characters), duplication or removal of a "
+                "field, truncation, and repeated edits; every from_str runs under catch_unwind with a per-op watchdog; the outcome class "
+                "(ok value / error variant) is compared with the model's and a panic or hang is a violation; non-trivial = a string the parser rejected",
+        "assumptions": ["JSON entry points: see C17; serde_json's own totality is assumed"],
     },
 }
